@@ -200,6 +200,53 @@ where
     }
 }
 
+/// Read-only access to private items for the verification harness.
+#[cfg(coupe_verif)]
+pub mod verif {
+    use super::*;
+
+    /// The permutation of `0..points.len()` computed by the Z-curve reordering.
+    pub fn permutation<const D: usize>(points: &[PointND<D>], order: u32) -> Vec<usize>
+    where
+        Const<D>: DimSub<Const<1>> + ToTypenum,
+        DefaultAllocator: Allocator<f64, Const<D>, Const<D>, Buffer = ArrayStorage<f64, D, D>>
+            + Allocator<f64, DimDiff<Const<D>, Const<1>>>,
+    {
+        let mut permutation: Vec<_> = (0..points.len()).collect();
+        if let Some(obb) = OrientedBoundingBox::from_points(points) {
+            z_curve_partition_recurse(points, order, &obb, &mut permutation);
+        }
+        permutation
+    }
+
+    /// For each point, the regions it falls in at each of the `order` levels
+    /// of the refinement, computed with the functions the algorithm uses.
+    pub fn codes<const D: usize>(points: &[PointND<D>], order: u32) -> Vec<Vec<u8>>
+    where
+        Const<D>: DimSub<Const<1>> + ToTypenum,
+        DefaultAllocator: Allocator<f64, Const<D>, Const<D>, Buffer = ArrayStorage<f64, D, D>>
+            + Allocator<f64, DimDiff<Const<D>, Const<1>>>,
+    {
+        let obb = match OrientedBoundingBox::from_points(points) {
+            Some(v) => v,
+            None => return Vec::new(),
+        };
+        points
+            .iter()
+            .map(|p| {
+                let mut mbr = obb.clone();
+                (0..order)
+                    .map(|_| {
+                        let region = mbr.region(p).unwrap_or(0);
+                        mbr = mbr.sub_mbr(region);
+                        region as u8
+                    })
+                    .collect()
+            })
+            .collect()
+    }
+}
+
 #[cfg(test)]
 mod tests {
     use super::*;
